@@ -14,11 +14,11 @@ CLAIMED = {
  "C09": ("fault_enumeration", "5.C09", "Byzantine-sender matrix in forks at sampled states and after every role transfer: every privileged execute variant of all five contracts x every sender kind (current and former role holders, contract addresses, traders, strangers); a sender the role model does not entitle must fail and leave the whole-chain dump unchanged", "deterministic simulation: enumerated sender x message matrix in forks, across role transfers"),
  "C10": ("exploration", "5.C10", "every tracked trader's stored position (all fields, existence) is compared before/after every transaction sent by someone else; only the position named by a Liquidate may change; sweeps of the whole query surface leave the dump unchanged", "seeded deterministic simulation: per-transaction comparison of all foreign positions over multi-party interleavings"),
  "C11": ("exploration", "5.C11", "block-time schedules around the funding time (early/on time/late/repeated PayFunding, gaps up to a week); premium, next funding time and the vault<->insurance-fund payment compared with references from same-block queries; every position event (increase, reduce, reverse, closes, withdraw, liquidation) compared with the no-funding outcome minus the funding owed, checkpoints tracked", "seeded deterministic simulation with a controlled clock: reference-model comparison of settlements and per-position charges"),
- "C12": ("exploration", "5.C12", "insurance-fund and fee-pool inflows of every successful open (incl. reversal), whole close and fee-free operation compared with floor(notional x ratio) / the vAMM's CalcFee quote, over fee ratios 0, 1 ulp ... 100% and notionals where fees round to zero", "seeded deterministic simulation: ledger comparison of fee routing per operation"),
+ "C12": ("exploration", "5.C12", "insurance-fund and fee-pool inflows of every successful open (incl. reversal), whole close and fee-free operation compared with floor(notional x ratio) / the vAMM's CalcFee quote, over fee ratios 0, 1 ulp ... 100% and notionals where fees round to zero; for whole closes also who was charged (what left the closing trader's wallet net of the payout equals the quoted fees, cw20 and native)", "seeded deterministic simulation: ledger comparison of fee routing per operation"),
  "C13": ("exploration", "5.C13", "a cw20 deployment and an identical native deployment are driven in lock-step; each native call attaches exactly what the cw20 twin pulled from the caller; success, every position, vAMM and engine state and per-party balance deltas must agree after each forwarded step", "seeded deterministic simulation: differential lock-step execution of twin deployments"),
  "C14": ("fault_enumeration", "5.C14", "gate matrix in forks at sampled states: every engine operation under all 8 combinations of paused/open/registered of a vAMM (gated operations must fail and change nothing, Liquidate/PayFunding must be unaffected by the pause flag); registry invariants after every step; ShutdownVamms from every subset of already-closed registered vAMMs must leave all of them closed", "deterministic simulation: enumerated gate combinations and shutdown subsets in forks"),
- "C15": ("exploration", "5.C15", "many trades per block with sizes solved to land near the band edge from the drifted price, both directions, engine-level and vAMM-direct; after each successful open the spot price is compared with the band around the harness's own end-of-previous-block price; closes checked for whole-inside-band / exact partial fraction", "seeded deterministic simulation with bursts inside one block: band reference kept by the harness"),
- "C16": ("exploration", "5.C16", "orderings of trades and liquidations inside one block and across block boundaries; after each liquidation every trader is probed in a fork (open and close) against the reference restriction (position touched in this block on a vAMM liquidated in this block); bystanders must not be refused for that reason", "seeded deterministic simulation: intra-block schedules with fork probes for every actor"),
+ "C15": ("exploration", "5.C15", "many trades per block with sizes solved to land near the band edge from the drifted price, both directions, engine-level and vAMM-direct; after each successful open the spot price is compared with the band (read exactly at reported prices: lower edge rounded up) around the harness's own end-of-previous-block price; closes checked for whole-inside-band / exact partial fraction", "seeded deterministic simulation with bursts inside one block: band reference kept by the harness"),
+ "C16": ("exploration", "5.C16", "orderings of trades and liquidations inside one block and across block boundaries; after each liquidation every trader is probed in a fork (open and close) against the reference restriction (position touched in this block on a vAMM liquidated in this block); bystanders must not be refused for that reason (incl. accounts sharing a storage key with a real trader in worlds with prefix-related vAMM addresses)", "seeded deterministic simulation: intra-block schedules with fork probes for every actor"),
  "C17": ("exploration", "5.C17", "query-then-execute at the same state for both swap kinds and directions with limits at, just below and just above the quote, at the vAMM and through OpenPosition / whole ClosePosition; executed amounts must equal the quote and the reference curve; a limit on the wrong side must refuse and change nothing", "seeded deterministic simulation: quote/execute pairs against a reference curve"),
  "C18": ("exploration", "5.C18", "irregular block cadence with several trades per block; vAMM TWAP over intervals shorter/equal/longer than the history and the price feed's TWAP/latest/previous queries compared with bounds derived from the harness's own record of end-of-block prices and submissions; raw reserve snapshots checked for one-per-block", "seeded deterministic simulation with a controlled clock: bounds from the harness's own price record"),
  "C20": ("exploration", "5.C20", "random UpdateConfig sequences on engine and vAMM (single and combined fields, boundary values), cap changes under live positions, whitelist churn, AddVamm of a vAMM with different decimals; bounds checked after every accepted update, caps after every position-increasing trade by a non-whitelisted trader", "seeded deterministic simulation: configuration churn interleaved with trades"),
